@@ -1,36 +1,204 @@
 import RossModel.Codec
 import RossModel.CodecEvent
 import RossModel.CodecProto
+import RossModel.CodecLink
 import RossModel.Accept
 import RossModel.Spec.Layout
+import RossModel.Spec.Frames
+import RossModel.Spec.Node
+/-!
+# Line-protocol driver (DESIGN.md §4.2, appendix A)
+
+Reads `<scenario> <inputs> => <observation>` lines produced by the Rust harness from the real code,
+recomputes every observation with the model (the very definitions the theorems in `RossModel/Props` are
+about) and judges the line:
+
+* `ok`                      the implementation did what the model does;
+* `NOTE <why>`              they differ only in something no property constrains (a rejection reason that still
+                            applies, an input outside every property's quantifier);
+* `PROP <ids> [clause]`     the implementation's own answer violates the named properties on this input
+                            (the acceptance predicate of the property fails on it): a concrete failing input;
+* `CORR`                    model and implementation differ and no property predicate fails on this line: the
+                            correspondence (and with it the transfer of the theorems) is broken;
+* `BADLINE`                 the line cannot be parsed / the harness itself failed.
+-/
 open Ross Ross.Codec
 
-/-- verdict for one line -/
 inductive Verdict where
   | ok
-  | okReason (note : String)          -- differs only in a rejection reason that truly applies
-  | corr (model : String)             -- correspondence broken
-  | prop (id : String) (clause : String) (model : String)   -- property predicate fails on the implementation's answer
+  | note (why : String)
+  | corr (model : String)
+  | prop (ids : String) (clause : String) (model : String)
   | bad (why : String)
 
 def sepList (s : String) (sep : String) : List String := if s = "-" then [] else s.splitOn sep
 
-/-! ## builder scenario -/
+def joinOr (l : List String) (sep : String) : String := if l.isEmpty then "-" else String.intercalate sep l
+
+/-! ## frame codecs -/
+
+/-- `ok(<frame>) r111` | `err` | `panic` -/
+def showDec (r : Res FErr Frame) : String :=
+  match r with
+  | .ok f => "ok(" ++ showFrame f ++ ") r111"
+  | .err _ => "err"
+  | .panic => "panic"
+
+/-- the frame inside `ok(<frame>) rXYZ`, and the usability flags -/
+def parseDecObs (obs : String) : Option (Frame × String) :=
+  if obs.startsWith "ok(" then
+    match (obs.drop 3).toString.splitOn ") " with
+    | [f, r] => (parseFrame f).map (·, r)
+    | _ => none
+  else none
+
+/-- C04 evaluated on the implementation's own answer -/
+def decOracle (obs : String) : Option String :=
+  if obs == "panic" then some "decoder panicked"
+  else if obs == "err" then none
+  else match parseDecObs obs with
+    | some (f, r) =>
+      if !decide f.WF then some "accepted frame is not well-formed"
+      else if r != "r111" then some "accepted frame cannot be re-encoded for both links and fed to reassembly"
+      else none
+    | none => some "unreadable decoder result"
+
+def scenUsartDec (hex obs : String) : Verdict :=
+  match parseBytes hex with
+  | none => .bad "parse"
+  | some bs =>
+    let m := fromUsart bs
+    let a := showDec m
+    if a == obs then .ok
+    else match decOracle obs with
+      | some clause => .prop "C04" clause a
+      | none =>
+        -- C09 decode side: valid COBS encodings of 5..=13 byte bodies decode to the layout's fields, and a
+        -- body whose size disagrees with its declared length is rejected
+        match m with
+        | .ok _ => .prop "C09" "a valid encoding is not decoded to the fields the layout defines" a
+        | _ =>
+          match Cobs.decodeBody bs with
+          | some body =>
+            if obs.startsWith "ok(" && (body.length < 5 || body.length != (body.getD 4 0).toNat + 5) then
+              .prop "C09" "a body whose size disagrees with its declared data length is accepted" a
+            else .corr a
+          | none => .corr a
+
+def scenCanDec (cs obs : String) : Verdict :=
+  match parseCan cs with
+  | none => .bad "parse"
+  | some c =>
+    let a := showDec (fromCan c)
+    if a == obs then .ok
+    else match decOracle obs with
+      | some clause => .prop "C04,C08" clause a
+      | none => .prop "C08" "decoding differs from the identifier layout" a
+
+def scenEnc (which : String) (fs obs : String) : Verdict :=
+  match parseFrame fs with
+  | none => .bad "parse"
+  | some f =>
+    let a := if which == "usart" then showResClass hexBytes (toUsart f) else showResClass showCan (toCan f)
+    if a == obs then .ok
+    else if decide f.WF then
+      .prop (if which == "usart" then "C09" else "C08") "encoding of a well-formed frame differs from the published layout" a
+    else .note "encoder differs on an ill-formed frame (outside every property)"
+
+def scenRt (which : String) (fs obs : String) : Verdict :=
+  match parseFrame fs with
+  | none => .bad "parse"
+  | some f =>
+    let a := if which == "usart" then
+        (match toUsart f with | .ok u => showResClass showFrame (fromUsart u) | _ => "panic")
+      else (match toCan f with | .ok c => showResClass showFrame (fromCan c) | _ => "panic")
+    if a == obs then .ok
+    else if decide f.WF then
+      .prop (if which == "usart" then "C09" else "C08") "decode(encode(f)) differs from what the layout defines" a
+    else .note "round trip differs on an ill-formed frame (outside every property)"
+
+/-! ## fragmentation and reassembly -/
+
+def showFrames (fs : List Frame) : String :=
+  if fs.length ≤ 4 then joinOr (fs.map showFrame) "," else digest (fs.map showFrame)
+
+/-- `Packet.toFrames` is the mirror of the source (quadratic in the payload); `specFrames` is proved equal to it
+for payloads up to 28672 bytes (`toFrames_eq_spec`) and is what the driver evaluates on that domain -/
+def framesOf (p : Packet) : Res Unit (List Frame) :=
+  if p.data.length ≤ 28672 then .ok (specFrames p) else p.toFrames
+
+def scenToFrames (ps obs : String) : Verdict :=
+  match parsePacket ps with
+  | none => .bad "parse"
+  | some p =>
+    let a := match framesOf p with
+      | .ok fs => "ok(" ++ showFrames fs ++ ")"
+      | _ => "panic"
+    -- self-check of the fast form on small packets
+    if p.data.length ≤ 64 && (match p.toFrames with | .ok fs => "ok(" ++ showFrames fs ++ ")" | _ => "panic") != a then
+      .bad "MODEL: toFrames differs from specFrames"
+    else if a == obs then .ok
+    else if p.data.length ≤ 28672 then .prop "C10" "fragmentation differs from the documented frame sequence" a
+    else .note "fragmentation differs beyond the 4096-frame limit (outside every property)"
+
+def buildTag : Res BErr Packet → String
+  | .ok _ => "ok" | .err e => "err(" ++ showBErr e ++ ")" | .panic => "panic"
+
+def leftTag : Res BErr Nat → String
+  | .ok n => toString n | _ => "panic"
+
+/-- feed the frames to a fresh model builder, observing `frames_left`/`build` after each -/
+def fragSteps (fs : List Frame) : List String × String :=
+  let rec go (b : Option Builder) (fs : List Frame) (acc : List String) (last : String) : List String × String :=
+    match fs with
+    | [] => (acc.reverse, last)
+    | f :: t =>
+      let r := match b with | none => Builder.new f | some bb => bb.addFrame f
+      match r with
+      | .ok b' => go (some b') t ((leftTag b'.framesLeft ++ "/" ++ buildTag b'.build) :: acc)
+          (match b'.build with | .ok q => "ok:" ++ showPacket q | .err e => "err(" ++ showBErr e ++ ")" | .panic => "panic")
+      | _ => (acc.reverse, "reject")
+  go none fs [] "none"
+
+def scenFragRt (path ps obs : String) : Verdict :=
+  match parsePacket ps with
+  | none => .bad "parse"
+  | some p =>
+    if p.data.length > 28672 then .note "beyond the 4096-frame limit" else
+    -- closed form given by `reassembly_exact`: after k of n frames, n - k are left and build reports missing
+    -- frames, after the last the packet is complete and equal to the input
+    let n := (specFrames p).length
+    let steps := (List.range n).map fun i =>
+      toString (n - 1 - i) ++ "/" ++ (if i + 1 == n then "ok" else "err(MissingFrames)")
+    let a := digest steps ++ " same"
+    -- self-check on small packets: run the model builder over the model codecs
+    let selfOk :=
+      if p.data.length ≤ 64 then
+        let fs := specFrames p
+        let fs' : Option (List Frame) :=
+          if path == "can" then fs.mapM fun f => match toCan f with
+            | .ok c => (match fromCan c with | .ok g => some g | _ => none) | _ => none
+          else if path == "usart" then fs.mapM fun f => match toUsart f with
+            | .ok u => (match fromUsart u with | .ok g => some g | _ => none) | _ => none
+          else some fs
+        match fs' with
+        | some l => let (st, last) := fragSteps l; st == steps && last == "ok:" ++ showPacket p
+        | none => false
+      else true
+    if !selfOk then .bad "MODEL: builder run differs from reassembly_exact"
+    else if a == obs then .ok
+    else .prop "C02" ("fragmentation + in-order reassembly through the " ++ path ++ " path is not the identity") a
 
 def showBuild : Res BErr Packet → String
-  | .ok p => "ok(" ++ showPacket p ++ ")"
+  | .ok p => "ok(" ++ showPacketShort p ++ ")"
   | .err e => "err(" ++ showBErr e ++ ")"
   | .panic => "panic"
 
-def showLeft : Res BErr Nat → String
-  | .ok n => toString n
-  | _ => "panic"
-
 def builderState (b : Builder) : String :=
-  toString b.expected ++ "/" ++ toString b.frameCount ++ "/" ++ showLeft b.framesLeft ++ "/" ++ showBuild b.build ++ "/" ++
+  toString b.expected ++ "/" ++ toString b.frameCount ++ "/" ++ leftTag b.framesLeft ++ "/" ++ showBuild b.build ++ "/" ++
     showBuild b.build
 
-/-- run the model over the frames; for every step return (text with reason, text without reason, reason check) -/
+/-- run the model over the frames; for every step (text with reason, text without reason, reason check) -/
 def builderRun (f0 : Frame) (fs : List Frame) (implReasons : List (Option BErr)) : List String × List String × Bool :=
   match Builder.new f0 with
   | .err e =>
@@ -67,38 +235,82 @@ def scenBuilder (f0s fss obs : String) : Verdict :=
     let implSteps := obs.splitOn ";"
     let stripped := implSteps.map stripReason
     let (full, noReason, reasonsOk) := builderRun f0 fs (stripped.map (·.2))
-    if String.intercalate ";" full == obs then .ok
+    let a := String.intercalate ";" full
+    if a == obs then .ok
     else if String.intercalate ";" noReason == String.intercalate ";" (stripped.map (·.1)) then
-      if reasonsOk then .okReason "builder reason differs but applies"
-      else .prop "C07" "rejection reason does not apply" (String.intercalate ";" full)
-    else .corr (String.intercalate ";" full)
+      if reasonsOk then .note "builder rejection reason differs but applies"
+      else .prop "C07" "rejection reason does not apply" a
+    else if decide f0.WF && fs.all (fun f => decide f.WF) then
+      .prop "C07" "accept/reject, state, frames_left or build differ from the exact-next-frame rule" a
+    else .note "builder differs on ill-formed frames (outside every property)"
   | _, _ => .bad "parse"
 
 /-! ## events -/
+
+def showEventShort (e : Event) : String :=
+  match e with
+  | .data r t n d => if d.length > 64 then "k4:" ++ h16 r ++ ":" ++ h16 t ++ ":" ++ h16 n ++ ":" ++ showLogBytes d else showEvent e
+  | _ => showEvent e
+
+def showEncodedShort (e : Event) : String :=
+  let p := encode ⟨0, 0, 0⟩ e
+  if p.data.length > 80 then (if p.isError then "E:" else "D:") ++ hexNat 4 p.addr.toNat ++ ":" ++ showLogBytes p.data
+  else showEncoded e
+
+def scenEvEnc (es obs : String) : Verdict :=
+  match parseEvent es with
+  | none => .bad "parse"
+  | some e =>
+    let a := showEncodedShort e
+    if a == obs then .ok else .prop "C11" "encoding differs from the published layout" a
+
+def scenEvRt (es obs : String) : Verdict :=
+  match parseEvent es with
+  | none => .bad "parse"
+  | some e =>
+    let p := encode ⟨0, 0, 0⟩ e
+    let a := showRes showCErr showEventShort (decode e.kind p) ++ " " ++ (if p.isError then "E:" else "D:") ++ hexNat 4 p.addr.toNat
+    if a == obs then .ok
+    else if decide e.WF then
+      -- C03 on the implementation's own answer
+      let want := "ok(" ++ showEventShort e ++ ") D:" ++ hexNat 4 e.receiver.toNat
+      if obs == want then .bad "MODEL: round trip differs from decode_encode" else
+      .prop "C03" "decode(encode(e)) is not e, or the packet is not a data packet addressed to the receiver" a
+    else .note "round trip differs on a data event whose declared length is not its payload length"
 
 def scenEvDec (ks ps obs : String) : Verdict :=
   match (ks.drop 1).toString.toNat?.bind kindOfIdx, parsePacket ps with
   | some k, some p =>
     let m := decode k p
-    let full := showRes showCErr showEvent m
+    let full := showRes showCErr showEventShort m ++ (match m with | .ok _ => " re1" | _ => "")
     if full == obs then .ok
     else
-      -- same class?
       let mClass := match m with | .ok _ => "ok" | .err _ => "err" | .panic => "panic"
       let iClass := if obs.startsWith "ok(" then "ok" else if obs.startsWith "err(" then "err" else obs
-      if mClass == "err" && iClass == "err" then
+      if iClass == "panic" then .prop "C05" "decoder panicked" full
+      else if obs.startsWith "ok(INVALID)" then .prop "C05" "decoder materialised a value outside the kind's domain" full
+      else if iClass == "ok" && obs.endsWith " re0" then .prop "C05" "accepted value does not re-encode to a packet that decodes to it" full
+      else if mClass == "err" && iClass == "err" then
         let inner := ((obs.drop 4).toString.splitOn ")").headD ""
         match parseCErr inner with
-        | some r => if cappliesB r k p then .okReason "decoder reason differs but applies"
+        | some r => if cappliesB r k p then .note "decoder rejection reason differs but applies"
                     else .prop "C05" "rejection reason does not apply" full
         | none => .bad "reason"
-      else if iClass == "panic" then .prop "C05" "decoder panicked" full
       else if mClass == "ok" && iClass == "ok" then
-        -- value differs: only a violation (of C11) if the reference decoder accepts the packet
+        -- value differs: a violation of C11 if the reference decoder accepts the packet
         match Spec.refDecode k p with
-        | some _ => .prop "C11" "decoded value differs from the reference on a canonical packet" full
-        | none => .okReason "value differs on a non-canonical packet"
-      else .corr full
+        | some _ => .prop "C11" "decoded value differs from the reference decoder on a canonical packet" full
+        | none => .note "decoded value differs on a packet the reference decoder does not accept"
+      else if iClass == "ok" then
+        -- accepted although the model rejects: only exact encodings may be accepted
+        if p.isError || codeOf p.data != some k.code || !sizeOk k p.data.length then
+          .prop "C05" "accepted a packet that is an error packet, carries another event code or has the wrong length" full
+        else .corr full
+      else
+        -- rejected although the model accepts
+        match Spec.refDecode k p with
+        | some _ => .prop "C11" "a packet the reference decoder accepts is rejected" full
+        | none => .corr full
   | _, _ => .bad "parse"
 
 def scenEvCross (ps obs : String) : Verdict :=
@@ -108,7 +320,6 @@ def scenEvCross (ps obs : String) : Verdict :=
     let s := hexNat 4 mask
     if s == obs then .ok
     else
-      -- C12 on the implementation's own answer: at most one bit set
       match parseHexNat obs with
       | some im =>
         let bits := (List.range 16).filter fun i => im / 2 ^ i % 2 == 1
@@ -116,13 +327,89 @@ def scenEvCross (ps obs : String) : Verdict :=
       | none => .bad "mask"
   | none => .bad "parse"
 
-/-! ## links -/
+/-! ## receivers -/
 
-def parseCanItems (s : String) : Option (List CanItem) :=
-  (sepList s ",").mapM fun t =>
-    if t = "." then some .wouldBlock else if t = "!" then some .overrun else (parseCan t).map .frame
+/-- results of the calls without the "nothing"s and without the `@remaining` suffix -/
+def emissionsOf (obs : String) : List String :=
+  (obs.splitOn ",").filterMap fun t =>
+    let r := (t.splitOn "@").headD ""
+    if r == "nothing" then none else some r
 
-def showPolls (l : List Out) : String := String.intercalate "," (l.map showOut)
+/-- C06 on the implementation's own answer: never a panic or a spin, the second probe is delivered last, and
+nothing is delivered that the (provably merge-free) model does not deliver -/
+def rxOracle (implObs modelObs : String) : Option String :=
+  let ie := emissionsOf implObs
+  let me := emissionsOf modelObs
+  if ie.contains "panic" then some "a poll panicked"
+  else if ie.contains "blocked" then some "a poll blocks forever / reads beyond the supplied frames"
+  else
+    let iok := ie.filter (·.startsWith "ok(")
+    let mok := me.filter (·.startsWith "ok(")
+    if iok.getLast? != mok.getLast? then some "the second probe packet is not the last packet delivered intact"
+    else if iok.any (fun p => !mok.contains p) then some "a packet was delivered that no model run delivers (altered or merged)"
+    else none
+
+def rxModel (link items : String) : Option String :=
+  if link == "can" then (parseCanItems items).map fun s => showTrace (canPollsSt none s)
+  else (parseByteItems items).map fun s => showTrace (byteTrace link s)
+
+def scenRx (link items obs : String) : Verdict :=
+  match rxModel link items with
+  | none => .bad "parse"
+  | some a =>
+    if a == obs then .ok
+    else match rxOracle obs a with
+      | some clause => .prop "C06" clause a
+      | none => .corr a
+
+/-- bytes a receiver may hold between polls for a packet in flight that announced `n` frames -/
+def heapBound (n : Nat) : Nat := 1024 + 64 * n
+
+def announcedOf : RxSt → Nat
+  | none => 0
+  | some b => b.expected
+
+/-- `rxh`: every entry is `<result>@<left>/<live>/<peak>/<plen>`, then ` base<live of a fresh receiver>` -/
+def scenRxh (link items obs : String) : Verdict :=
+  let states : Option (List (String × Nat)) :=
+    if link == "can" then (parseCanItems items).map fun s =>
+      (canPollsSt none s).map fun (o, n, st) => (showOutShort o ++ "@" ++ toString n, announcedOf st)
+    else (parseByteItems items).map fun s =>
+      (byteTrace link s).map fun (o, n, st) => (showOutShort o ++ "@" ++ toString n, announcedOf st.rx)
+  match states, obs.splitOn " base" with
+  | some sts, [polls, bs] =>
+    match bs.toNat? with
+    | none => .bad "base"
+    | some base =>
+      let entries := polls.splitOn ","
+      let parsed := entries.map fun e =>
+        match e.splitOn "/" with
+        | [r, live, peak, plen] => (r, live.toNat?.getD 0, peak.toNat?.getD 0, plen.toNat?.getD 0)
+        | _ => (e, 0, 0, 0)
+      let a := String.intercalate "," (sts.map (·.1))
+      if String.intercalate "," (parsed.map (·.1)) != a then
+        match rxOracle (String.intercalate "," (parsed.map (·.1))) a with
+        | some clause => .prop "C06" clause a
+        | none => .corr a
+      else
+        -- memory oracle, per poll, against the model's bookkeeping
+        let rec check (ps : List (String × Nat × Nat × Nat)) (ss : List (String × Nat)) (prevAnn : Nat) : Option String :=
+          match ps, ss with
+          | (r, live, peak, plen) :: pt, (_, ann) :: st =>
+            if live > base + heapBound ann then
+              some s!"after a poll the receiver holds {live - base} bytes with {ann} frames announced"
+            else if ann == 0 && live > base then
+              some s!"receiver holds {live - base} bytes more than a fresh one at a packet boundary ({r})"
+            else if peak > base + heapBound (max prevAnn (max ann (plen / 7 + 2))) + 4 * plen + 2048 then
+              some s!"peak of {peak - base} bytes inside a poll ({r})"
+            else check pt st ann
+          | _, _ => none
+        match check parsed sts 0 with
+        | some clause => .prop "C19" clause a
+        | none => .ok
+  | _, _ => .bad "parse"
+
+/-! ## senders -/
 
 def parseWResps (s : String) : Option (List WResp) :=
   if s = "-" then some [] else s.toList.mapM fun c =>
@@ -137,79 +424,214 @@ def parseIoResps (s : String) : Option (List IoResp) :=
     if t = "~" then some .interrupted else if t = "!" then some .ioError
     else if t.startsWith "w" then (t.drop 1).toString.toNat?.map .wrote else none
 
-def showLog (bs : List UInt8) : String :=
-  if bs.length ≤ 64 then hexBytes bs else "#" ++ hexNat 16 (fnv (hexBytes bs)).toNat ++ "/" ++ toString bs.length
-
 def showSendRes {α} : Res SendErr α → String
   | .ok _ => "ok" | .err _ => "err" | .panic => "panic"
 
-/-- model answer for the scenarios whose observation is compared verbatim -/
-def answer (toks : List String) : Option String :=
+/-- fast forms of the per-packet wire images, proved equal to the mirrors on payloads up to 28672 bytes
+(`usartFrames_eq`, `canFramesOf_eq`) -/
+def bodiesOf (p : Packet) : Option (List (List UInt8)) :=
+  if p.data.length ≤ 28672 then some (usartBodies p) else usartFrames p
+
+def canOf (p : Packet) : Option (List CanFrame) :=
+  if p.data.length ≤ 28672 then some (canWire p) else canFramesOf p
+
+def showCanLog (log : List CanFrame) : String :=
+  if log.length ≤ 4 then joinOr (log.map showCan) "," else digest (log.map showCan)
+
+def scenTx (toks : List String) (obs : String) : Verdict :=
+  let ans : Option String :=
+    match toks with
+    | ["usart", p, rs] => do
+      let pk ← parsePacket p
+      let r ← parseWResps rs
+      match bodiesOf pk with
+      | some us => pure (showLogBytes (usartWriteAll (wireOf us) r) ++ " ok")
+      | none => pure "panic"
+    | ["can", p, rs] => do
+      let pk ← parsePacket p
+      let r ← parseTxResps rs
+      match canOf pk with
+      | some cs => let (log, res) := canTransmitAll cs r; pure (showCanLog log ++ " " ++ showSendRes res)
+      | none => pure "panic"
+    | ["serial", p, rs, fl] => do
+      let pk ← parsePacket p
+      let r ← parseIoResps rs
+      match bodiesOf pk with
+      | some us =>
+        let (w, ok, _) := serialSendFrames us r
+        let res : Res SendErr Unit := if !ok then .err .writeError else if fl = "o" then .ok () else .err .writeError
+        pure (showLogBytes w ++ "/f" ++ (if ok then "1" else "0") ++ " " ++ showSendRes res)
+      | none => pure "panic"
+    | _ => none
+  match ans with
+  | none => .bad "parse"
+  | some a =>
+    if a == obs then .ok
+    else .prop "C14" "bytes/frames on the device or the result differ from the byte-exact wire image" a
+
+/-! ## loop-back and end to end -/
+
+def scenLoop (toks : List String) (obs : String) : Verdict :=
   match toks with
-  | ["usart_dec", hex] => do pure (showResClass showFrame (fromUsart (← parseBytes hex)))
-  | ["usart_enc", f] => do pure (showResClass hexBytes (toUsart (← parseFrame f)))
-  | ["can_dec", c] => do pure (showResClass showFrame (fromCan (← parseCan c)))
-  | ["can_enc", f] => do pure (showResClass showCan (toCan (← parseFrame f)))
-  | ["to_frames", p] => do
-    match (← parsePacket p).toFrames with
-    | .ok fs => pure ("ok(" ++ (if fs.length ≤ 4 then String.intercalate "," (fs.map showFrame) else digest (fs.map showFrame)) ++ ")")
-    | _ => pure "panic"
-  | ["ev_enc", e] => do pure (showEncoded (← parseEvent e))
-  | ["rx", "usart", items] => do pure (showPolls (usartPolls LinkSt.init (← parseByteItems items)))
-  | ["rx", "serial", items] => do pure (showPolls (serialPolls LinkSt.init (← parseByteItems items)))
-  | ["rx", "can", items] => do pure (showPolls (canPolls none (← parseCanItems items)))
-  | ["tx", "usart", p, rs] => do
-    match usartSend (← parsePacket p) (← parseWResps rs) with
-    | .ok w => pure (showLog w ++ " ok")
-    | _ => pure "panic"
-  | ["tx", "can", p, rs] => do
-    let (log, r) := canSend (← parsePacket p) (← parseTxResps rs)
-    pure ((if log.length ≤ 4 then (if log.isEmpty then "-" else String.intercalate "," (log.map showCan)) else digest (log.map showCan)) ++ " " ++ showSendRes r)
-  | ["tx", "serial", p, rs, fl] => do
-    let (log, r) := serialSend (← parsePacket p) (← parseIoResps rs) (if fl = "o" then .ok else .ioError)
-    pure (showLog log ++ " " ++ showSendRes r)
-  | ["proto", addr, rxq, txq, ops] => runProto addr rxq txq ops
-  | _ => none
+  | link :: ps :: seed :: _ =>
+    match (ps.splitOn "+").mapM parsePacket, seed.toNat? with
+    | some pkts, some sd =>
+      let want := pkts.map fun p => "ok(" ++ showPacketShort p ++ ")"
+      let a : Option String :=
+        if link == "can" then do
+          let wire ← pkts.mapM canOf
+          let script := scheduledCan wire.flatten sd
+          pure (digest (script.map showCanItem) ++ " " ++ showTrace (canPollsSt none script))
+        else do
+          let bodies ← pkts.mapM bodiesOf
+          let script := scheduledBytes link (wireOf bodies.flatten) sd
+          pure ("#" ++ hexNat 16 (fnv (showByteItems script)).toNat ++ "/" ++ toString script.length ++ " " ++
+            showTrace (byteTrace link script))
+      match a with
+      | none => .bad "model wire"
+      | some a =>
+        if a == obs then .ok
+        else
+          -- C13 on the implementation's own answer: exactly the packets sent, in order, nothing else
+          let polls := (obs.splitOn " ").getD 1 ""
+          if emissionsOf polls == want then .corr a
+          else .prop "C13" "the receiver does not return exactly the packets written by the sender, in order" a
+    | _, _ => .bad "parse"
+  | _ => .bad "parse"
+
+/-- classify a delivered packet the way a receiving application does: by the unique decoder that accepts it -/
+def classify (p : Packet) : String :=
+  match Kind.all.filterMap fun k => match decode k p with | .ok e => some e | _ => none with
+  | [e] => showEventShort e
+  | [] => "undecodable[" ++ showPacketShort p ++ "]"
+  | _ => "ambiguous[" ++ showPacketShort p ++ "]"
+
+def scenE2e (toks : List String) (obs : String) : Verdict :=
+  match toks with
+  | link :: as :: bs :: hs :: evs :: seed :: _ =>
+    match parseHexNat as, parseHexNat bs, (sepList evs "+").mapM parseEvent, seed.toNat? with
+    | some an, some bn, some es, some sd =>
+      let a := UInt16.ofNat an
+      let b := UInt16.ofNat bn
+      let handlers : List (Nat × Handler) :=
+        (if hs = "-" then [] else hs.toList).mapIdx fun i c => (i, ⟨i, c == 'c', []⟩)
+      -- what node A puts on the link (C16): everything not addressed to itself, and everything if it is the broadcast node
+      let sent := (es.map (encode ⟨0, 0, 0⟩)).filter fun p => p.addr != a || a == BROADCAST
+      let polls : Option (List Out) :=
+        if link == "can" then do
+          let wire ← sent.mapM canOf
+          pure (canPolls none (scheduledCan wire.flatten sd))
+        else do
+          let bodies ← sent.mapM bodiesOf
+          let script := scheduledBytes link (wireOf bodies.flatten) sd
+          pure (if link == "usart" then usartPolls LinkSt.init script else serialPolls LinkSt.init script)
+      match polls with
+      | none => .bad "model wire"
+      | some outs =>
+        let rx : Proto := ⟨b, handlers, outs.map toRx, [], []⟩
+        let log := rx.tickAll.log.filterMap fun
+          | .call t p => some ("h" ++ toString t ++ "/" ++ classify p)
+          | _ => none
+        let ans := "ok " ++ joinOr log ","
+        if ans == obs then .ok
+        else .prop "C01" "the peer's handlers do not observe exactly the events sent to them, once, in order, intact" ans
+    | _, _, _, _ => .bad "parse"
+  | _ => .bad "parse"
+
+/-! ## protocol histories -/
+
+/-- which property an op belongs to -/
+def opProp (op : String) : String :=
+  if op.startsWith "add" || op.startsWith "rm" then "C17"
+  else if op.startsWith "tick" then "C15"
+  else if op.startsWith "send" then "C16"
+  else "C18"
+
+def scenProto (addr rxq txq ops obs : String) : Verdict :=
+  match runProtoSteps addr rxq txq ops with
+  | none => .bad "parse"
+  | some (results, log) =>
+    let a := joinOr results ";" ++ " " ++ joinOr log ","
+    if a == obs then .ok
+    else
+      -- attribute to the first operation whose result, queue position or log segment differs
+      let opl := sepList ops ";"
+      match obs.splitOn " " with
+      | [ir, il] =>
+        let ires := sepList ir ";"
+        let ilog := sepList il ","
+        let seg (lg : List String) (rs : List String) (i : Nat) : List String :=
+          let endOf (j : Nat) : Nat := (((rs.getD j "").splitOn "#").getD 1 "0").toNat?.getD 0
+          let lo := if i = 0 then 0 else endOf (i - 1)
+          (lg.drop lo).take (endOf i - lo)
+        let firstBad := (List.range opl.length).find? fun i =>
+          ires.getD i "?" != results.getD i "?" || seg ilog ires i != seg log results i
+        match firstBad with
+        | some i =>
+          let pid := opProp (opl.getD i "")
+          let extra := if pid != "C17" && (opl.take i).any (fun o => o.startsWith "add" || o.startsWith "rm") then ",~C17" else ""
+          .prop (pid ++ extra) ("operation " ++ toString i ++ " (" ++ ((opl.getD i "").splitOn "/").headD "" ++
+            ") differs from the specified dispatch/routing/registry/exchange behaviour") a
+        | none => .prop "C15,C16,C17,C18" "log differs" a
+      | _ => .bad "observation"
+
+/-! ## dispatch -/
 
 def judge (inp obs : String) : Verdict :=
-  let toks := inp.splitOn " "
-  match toks with
+  if obs.startsWith "HARNESS-" then .bad obs else
+  match inp.splitOn " " with
+  | ["usart_dec", hex] => scenUsartDec hex obs
+  | ["can_dec", c] => scenCanDec c obs
+  | ["usart_enc", f] => scenEnc "usart" f obs
+  | ["can_enc", f] => scenEnc "can" f obs
+  | ["usart_rt", f] => scenRt "usart" f obs
+  | ["can_rt", f] => scenRt "can" f obs
+  | ["to_frames", p] => scenToFrames p obs
+  | ["frag_rt", path, p] => scenFragRt path p obs
   | ["builder", f0, fs] => scenBuilder f0 fs obs
+  | ["ev_enc", e] => scenEvEnc e obs
+  | ["ev_rt", e] => scenEvRt e obs
   | ["ev_dec", k, p] => scenEvDec k p obs
   | ["ev_cross", p] => scenEvCross p obs
-  | _ =>
-    match answer toks with
-    | some a =>
-      if a == obs then .ok
-      else
-        -- scenario specific property reading of a disagreement
-        match toks with
-        | "usart_dec" :: _ => if obs == "panic" then .prop "C04" "decoder panicked" a else .corr a
-        | "can_dec" :: _ => if obs == "panic" then .prop "C04" "decoder panicked" a else .corr a
-        | "to_frames" :: _ => .prop "C10" "fragmentation differs from the documented sequence" a
-        | "usart_enc" :: _ => .prop "C09" "encoding differs from the published layout" a
-        | "can_enc" :: _ => .prop "C08" "encoding differs from the published layout" a
-        | "ev_enc" :: _ => .prop "C11" "encoding differs from the published layout" a
-        | "tx" :: _ => .prop "C14" "device log or result differs from the wire image" a
-        | "proto" :: _ => .prop "C15-C18" "results or log differ from the specified dispatch/routing/registry/exchange" a
-        | _ => .corr a
-    | none => .bad "unknown scenario or unparsable input"
+  | "rx" :: link :: items :: _ => scenRx link items obs
+  | "rxh" :: link :: items :: _ => scenRxh link items obs
+  | "tx" :: rest => scenTx rest obs
+  | "loop" :: rest => scenLoop rest obs
+  | "e2e" :: rest => scenE2e rest obs
+  | ["proto", addr, rxq, txq, ops] => scenProto addr rxq txq ops obs
+  | _ => .bad "unknown scenario"
 
-partial def loop (h : IO.FS.Stream) (n ok okr bad : Nat) : IO (Nat × Nat × Nat × Nat) := do
+structure Counts where
+  n : Nat := 0
+  ok : Nat := 0
+  notes : Nat := 0
+  bad : Nat := 0
+  announced : Option Nat := none
+
+partial def loop (h : IO.FS.Stream) (c : Counts) (notes : List (String × Nat)) : IO (Counts × List (String × Nat)) := do
   let line ← h.getLine
-  if line.isEmpty then return (n, ok, okr, bad)
+  if line.isEmpty then return (c, notes)
   let l := line.trimAscii.toString
+  if l.startsWith "END lines=" then
+    let k := ((l.drop 10).toString.toNat?).getD 0
+    loop h { c with announced := some (c.announced.getD 0 + k) } notes
+  else
   match l.splitOn " => " with
   | [inp, obs] =>
     match judge inp obs with
-    | .ok => loop h (n + 1) (ok + 1) okr bad
-    | .okReason _ => loop h (n + 1) ok (okr + 1) bad
-    | .corr m => do IO.println s!"CORR {inp} impl={obs} model={m}"; loop h (n + 1) ok okr (bad + 1)
-    | .prop id c m => do IO.println s!"PROP {id} [{c}] {inp} impl={obs} model={m}"; loop h (n + 1) ok okr (bad + 1)
-    | .bad w => do IO.println s!"BADLINE ({w}) {l}"; loop h (n + 1) ok okr (bad + 1)
-  | _ => do IO.println s!"BADLINE (format) {l}"; loop h (n + 1) ok okr (bad + 1)
+    | .ok => loop h { c with n := c.n + 1, ok := c.ok + 1 } notes
+    | .note w =>
+      let notes' := if notes.any (·.1 == w) then notes.map (fun (k, v) => if k == w then (k, v + 1) else (k, v)) else notes ++ [(w, 1)]
+      loop h { c with n := c.n + 1, notes := c.notes + 1 } notes'
+    | .corr m => do IO.println s!"CORR {inp} impl={obs} model={m}"; loop h { c with n := c.n + 1, bad := c.bad + 1 } notes
+    | .prop id cl m => do
+      IO.println s!"PROP {id} [{cl}] {inp} impl={obs} model={m}"; loop h { c with n := c.n + 1, bad := c.bad + 1 } notes
+    | .bad w => do IO.println s!"BADLINE ({w}) {l}"; loop h { c with n := c.n + 1, bad := c.bad + 1 } notes
+  | _ => do IO.println s!"BADLINE (format) {l}"; loop h { c with n := c.n + 1, bad := c.bad + 1 } notes
 
 def main : IO UInt32 := do
-  let (n, ok, okr, bad) ← loop (← IO.getStdin) 0 0 0 0
-  IO.println s!"DONE lines={n} ok={ok} ok_reason_differs={okr} bad={bad}"
-  return (if bad == 0 then 0 else 1)
+  let (c, notes) ← loop (← IO.getStdin) {} []
+  for (w, k) in notes do IO.println s!"NOTE {k} {w}"
+  let ann := match c.announced with | some k => toString k | none => "none"
+  IO.println s!"DONE lines={c.n} ok={c.ok} notes={c.notes} bad={c.bad} announced={ann}"
+  return (if c.bad == 0 && c.announced == some c.n then 0 else 1)
